@@ -158,6 +158,16 @@ CORPUS["C06"] = [
     M("early exit returns a non-zero density", (CPH, "        if zs[-2] < cloud_top_height:\n            return self.dtype(0), self.dtype(0)", "        if zs[-2] < cloud_top_height:\n            return self.dtype(1e-3), self.dtype(0)")),
     M("expm1 spelled as exp - 1", (CPH, "        DistStep = np.sin(AngE, dtype=self.dtype)", "        DistStep = np.sin(AngE, dtype=self.dtype) + 0 * (np.exp(AngE) - 1.0)")),
     M("Greisen exponent 1.5 -> 1.4", (CPH, "                t[mask] * (1 - self.dtype(3 / 2) * np.log(s[mask], dtype=self.dtype)),", "                t[mask] * (1 - self.dtype(1.4) * np.log(s[mask], dtype=self.dtype)),")),
+    B("lowest band mask overlaps the middle one, whose later store wins", (CPH, "        mask1 = z < 11\n", "        mask1 = z < 12\n")),
+    M("middle atmosphere band starts at 10 km instead of 11 km", (CPH, "        mask2 = np.logical_and(z >= 11, z < 25)", "        mask2 = np.logical_and(z >= 10, z < 25)")),
+    M("scale height of the middle band 6.34 -> 6.43 km", (CPH, "            np.divide(z[mask2] - 45.5, -6.34, dtype=self.dtype), dtype=self.dtype", "            np.divide(z[mask2] - 45.5, -6.43, dtype=self.dtype), dtype=self.dtype")),
+    M("density of the top band loses the factor 1/2", (CPH, "                0.5e-5 * 3.344,", "                1.0e-5 * 3.344,")),
+    M("density of the lowest band uses the grammage exponent", (CPH, "            * ((z[mask1] - 44.34) / -11.861) ** ((1.0 / 0.19) - 1.0)", "            * ((z[mask1] - 44.34) / -11.861) ** (1.0 / 0.19)")),
+    M("ozone column below 5.35 km slopes the wrong way", (CPH, "            (self.dtype(5.35) - z[msk1]) / self.dtype(5.35)", "            (z[msk1] - self.dtype(5.35)) / self.dtype(5.35)")),
+    M("ozone interpolation uses the next table interval", (CPH, "                / (self.OzZeta[idxs] - self.OzZeta[idxs - 1])", "                / (self.OzZeta[idxs + 1] - self.OzZeta[idxs])")),
+    M("ozone floor applies from 50 km", (CPH, "        msk2 = z >= 100", "        msk2 = z >= 50")),
+    B("grammage bands written with np.where", (CPH, "        X[mask1] = np.power(((z[mask1] - 44.34) / -11.861), (1 / 0.19))\n", "        X = np.where(mask1, np.power(((z - 44.34) / -11.861), (1 / 0.19)), X)\n")),
+    B("middle band mask as a product of comparisons", (CPH, "        mask2 = np.logical_and(z >= 11, z < 25)", "        mask2 = (z >= 11) & ~(z >= 25)")),
     M("shower age from 2 t instead of 3 t", (CPH, "        s[mask] = self.dtype(3) * t[mask] / (t[mask] + self.dtype(2) * greisen_beta)", "        s[mask] = self.dtype(2) * t[mask] / (t[mask] + self.dtype(2) * greisen_beta)")),
     M("radiation length 37.15", (CPH, "        t[mask] = gramsum[mask] / self.dtype(36.66)", "        t[mask] = gramsum[mask] / self.dtype(37.15)")),
     M("track length without the square", (CPH, "        t4 = np.power(1 + self.dtype(1e-4 * s * eCthres), 2, dtype=self.dtype)", "        t4 = np.power(1 + self.dtype(1e-4 * s * eCthres), 1, dtype=self.dtype)")),
